@@ -142,7 +142,7 @@ func extractMmapShape(src, out string) error {
 	var sb strings.Builder
 	sb.WriteString("(* GENERATED on every run by `harness -mmap-shape` from " + src + " — do not edit. *)\n")
 	sb.WriteString("(* Structural facts of CSMatrix.Mmap / CSMatrix.Merge that the resource model Model/Mm.v assumes. *)\n")
-	fmt.Fprintf(&sb, "(* %s *)\n", strings.ReplaceAll(note, "*)", "* )"))
+	fmt.Fprintf(&sb, "(* %s *)\n", strings.ReplaceAll(strings.ReplaceAll(note, "*)", "* )"), "(*", "( *"))
 	b := func(name string, v bool, doc string) {
 		fmt.Fprintf(&sb, "Definition %s : bool := %s.   (* %s *)\n", name, cBool(v), doc)
 	}
